@@ -17,24 +17,57 @@ LEVEL = "exploration"
 
 TARGETS = ["sc.from_bytes_mod_order", "sc.from_bytes_mod_order_wide", "sc.add", "sc.sub", "sc.mul", "sc.neg", "sc.invert", "sc.batch_invert",
            "ed.mul_base", "ed.mul", "ed.mul_clamped", "ed.multiscalar_mul", "ed.secret_point_ops", "mont.mul", "x.x25519", "x.dh_static",
-           "ris.from_uniform_bytes", "ris.secret_point_ops", "ris.mul", "ris.multiscalar_mul", "sig.keygen", "sig.sign", "sig.sign_prehashed"]
+           "ris.from_uniform_bytes", "ris.secret_point_ops", "ris.compress_secret", "ed.compress_secret", "ris.mul", "ris.multiscalar_mul", "sig.keygen", "sig.sign", "sig.sign_prehashed"]
 VARTIME = ["vt.ed.vartime_multiscalar_mul", "vt.ed.vartime_double_scalar_mul_basepoint"]
-NSEC = 6
+NSEC = 7
+NCONF = 16        # secrets used to reproduce a taint report (algebraic boundary values first)
+import pyed
 
 
-def secrets(rng, n=64):
-    """NSEC secrets of n bytes: structured (all-zero, all-ones, single bits) and random"""
-    s = [[0] * n, [255] * n, [1] + [0] * (n - 1), [0] * (n - 1) + [64]]
-    while len(s) < NSEC:
+def pad(b, n=64):
+    b = list(b)
+    return (b + [0] * n)[:n]
+
+
+def boundary_secrets(target):
+    """secret values at which special cases of the arithmetic live: 0, +-1, l, p, and - for the one-way map, whose secret is
+    a field element r_0 read from the first 32 bytes after the driver's masking w[i] = sec[i] ^ 3i - the r_0 that make the
+    denominator of the Elligator map vanish (r_0^2 = i*d or i/d)"""
+    P, Lo = pyed.P, pyed.L
+    vals = [0, 1, Lo - 1, Lo, Lo + 1, 2, P - 1, P, 2**252, 2**255 - 1, 8, Lo - 2]
+    out = [pad(le(v)) for v in vals]
+    if target == "ris.from_uniform_bytes":
+        sp = []
+        for num, den in ((pyed.SQRT_M1 * pyed.D % P, 1), (pyed.SQRT_M1, pyed.D)):
+            ok, r = pyed.sqrt_ratio(num, den)
+            if ok:
+                sp += [r, P - r]
+        for r in sp + [0, 1, P - 1]:
+            enc = le(r)
+            out.insert(0, pad([enc[i] ^ ((3 * i) & 255) for i in range(32)] + [(3 * i) & 255 for i in range(32, 64)]))
+    return out
+
+
+def secrets(rng, n=64, target="", count=None):
+    """secrets of n bytes: structured (all-zero, all-ones, single bits, l - 1; target-specific boundary values) and random"""
+    count = count or NSEC
+    s = [[0] * n, [255] * n, [1] + [0] * (n - 1), [0] * (n - 1) + [64], pad(le(pyed.L - 1), n)]
+    if target == "ris.from_uniform_bytes":
+        s[3] = boundary_secrets(target)[0]
+    if count > NSEC:
+        for b in boundary_secrets(target):
+            if b not in s and len(s) < count - 2:
+                s.append(b)
+    while len(s) < count:
         s.append([rng.randrange(256) for _ in range(n)])
     return s
 
 
-def script(rng, targets):
+def script(rng, targets, count=None):
     ops = [{"op": "ct.info"}]
     pub = [rng.randrange(256) for _ in range(32)]
     for t in targets:
-        ops.append({"op": "ct.run", "target": t, "in": [secrets(rng), pub]})
+        ops.append({"op": "ct.run", "target": t, "in": [secrets(rng, 64, t, count), pub]})
     return ops
 
 
@@ -69,23 +102,24 @@ def lackey_windows(binp, cid, sp, sel, marker_addr, workdir):
     return wins
 
 
-def lockstep(ck, binp, cid, targets, label, marker):
-    """compare the instruction+address sequences between the markers for NSEC secrets; returns {target: divergence or None}"""
+def lockstep(ck, binp, cid, targets, label, marker, nsec=None):
+    """compare the instruction+address sequences between the markers for nsec secrets; returns {target: divergence or None}"""
+    nsec = nsec or NSEC
     wd = os.path.join(ck.workdir, "lk_" + label)
     os.makedirs(wd, exist_ok=True)
     sp = os.path.join(wd, "script.ndjson")
-    write_script(sp, script(ck.rng, targets))
+    write_script(sp, script(ck.rng, targets, nsec))
     # marker address: as reported by ct.info under valgrind (a native run would be subject to ASLR)
     marker = marker.rjust(8, "0")
-    with ThreadPoolExecutor(max_workers=NSEC) as ex:
-        runs = list(ex.map(lambda k: lackey_windows(binp, cid, sp, k, marker, wd + "/%d" % k if os.makedirs(wd + "/%d" % k, exist_ok=True) is None else wd), range(NSEC)))
+    with ThreadPoolExecutor(max_workers=min(nsec, 8)) as ex:
+        runs = list(ex.map(lambda k: lackey_windows(binp, cid, sp, "0123456789abcdefghijklmnopqrstuvwxyz"[k], marker, wd + "/%d" % k if os.makedirs(wd + "/%d" % k, exist_ok=True) is None else wd), range(nsec)))
     res = {}
     for i, t in enumerate(targets):
         ws = [r[i] for r in runs if i < len(r)]
-        if len(ws) != NSEC:
+        if len(ws) != nsec:
             raise ToolError("lackey window missing for " + t)
         div = None
-        for k in range(1, NSEC):
+        for k in range(1, nsec):
             if ws[k][1] != ws[0][1]:
                 blk = next((j for j, (a, b) in enumerate(zip(ws[0][2], ws[k][2])) if a != b), min(len(ws[0][2]), len(ws[k][2])))
                 div = dict(secret_a=0, secret_b=k, events_a=ws[0][0], events_b=ws[k][0], first_divergent_block_of_4096=blk)
@@ -104,7 +138,7 @@ def native_lockstep(ck, stepper, binp, cid, targets):
 
     def one(k):
         outp = os.path.join(wd, "win%d.ndjson" % k)
-        env = dict(os.environ, VERIF_CT_SEL=str(k), VERIF_CT_TRAP="1")
+        env = dict(os.environ, VERIF_CT_SEL="0123456789abcdefghijklmnopqrstuvwxyz"[k], VERIF_CT_TRAP="1")
         r = subprocess.run([stepper, outp, binp, cid, sp, os.path.join(wd, "trace%d.ndjson" % k)], env=env, stdout=subprocess.DEVNULL, stderr=subprocess.PIPE, text=True, timeout=3000)
         if r.returncode != 0:
             raise ToolError("stepper run failed for %s (rc=%d): %s" % (cid, r.returncode, r.stderr[-300:]))
@@ -124,6 +158,10 @@ def native_lockstep(ck, stepper, binp, cid, targets):
                 break
         res[t] = dict(steps=ws[0]["steps"], divergence=div)
     return res
+
+
+def e_reports(runs, t):
+    return [e["obs"]["reports"] for e in runs if e["target"] == t]
 
 
 def run(ck):
@@ -170,6 +208,14 @@ def run(ck):
             subset = list(TARGETS)
         todo = sorted(set(cands) | set(subset), key=TARGETS.index)
         res = lockstep(ck, bins[cid], cid, todo + [VARTIME[1]], cid, ev[0]["obs"]["marker_addr"])
+        # a taint report that the standard secrets do not reproduce: try again with the algebraic boundary values
+        again = [t for t in cands if res[t]["divergence"] is None]
+        if again:
+            res2 = lockstep(ck, bins[cid], cid, again, cid + "_confirm", ev[0]["obs"]["marker_addr"], nsec=NCONF)
+            for t in again:
+                if res2[t]["divergence"] is not None:
+                    res[t] = res2[t]
+                    res[t]["confirm_script"] = os.path.join(ck.workdir, "lk_" + cid + "_confirm", "script.ndjson")
         if res[VARTIME[1]]["divergence"] is None:
             raise ToolError("lock-step comparison is blind: the variable-time operation did not diverge")
         for t in todo:
@@ -181,7 +227,14 @@ def run(ck):
                 ck.add_violation("%s: instruction/address trace of %s depends on the secret" % (cid, t), dict(cfg=cid, target=t, divergence=d, script=os.path.join(ck.workdir, "lk_" + cid, "script.ndjson"),
                                  how_to_replay="VERIF_CT_SEL=<a|b> valgrind --tool=lackey --trace-mem=yes driver %s <script> <trace>" % cid))
             elif t in cands:
+                # memcheck (exact definedness) saw a conditional jump or an address computed from the secret bytes, but it goes the
+                # same way for every secret tried: control flow that singles out a secret value outside the tested set is still
+                # secret-dependent control flow.  (The unchanged tree raises no such report on any operation of any build.)
                 unconfirmed.append((cid, t))
+                rep = [l for l in open(os.path.join(ck.workdir, cid + ".memcheck.log")) if " at 0x" in l or " by 0x" in l or "depends on" in l or "of size" in l][:40]
+                ck.add_violation("%s: taint tracking reports secret-dependent control flow / addressing inside %s (not reproduced by %d secrets)" % (cid, t, NCONF),
+                                 dict(cfg=cid, target=t, memcheck_reports=e_reports(runs, t), memcheck_log_excerpt=rep, script=sp,
+                                      how_to_replay="valgrind --expensive-definedness-checks=yes driver %s <script> <trace>" % cid))
     # (3) the AVX-512 IFMA build cannot run under valgrind 3.19: its instruction-address sequence is observed natively by
     # single-stepping between the markers (control flow only; data addresses are not observable this way).  Thorough: also the
     # AVX2 build, as an observation of the real instruction stream that is independent of valgrind's translation.
